@@ -313,6 +313,59 @@ def history(binpath, seed, sh):
     return res
 
 
+def key_forms_history(binpath, seed):
+    """two independent, valid chains that authorise the same key material described in its two forms (with / without the
+    hash-algorithm list: two ids); each chain is verified in two executor processes, once before and once after the
+    other chain: what a process has seen of a key before must not decide the verdict"""
+    import hashlib
+    import jsongen
+    W = scen.World(binpath)
+    res = common.Result()
+    for k in ("rsa-2048-a", "rsa-3072-a", "ed1", "ec-a", "rsa-2048-b512"):
+        own = W.pub(k)
+        alt = W.pub(k)
+        alt.pop("keyid", None)
+        if "keyid_hash_algorithms" in alt:
+            del alt["keyid_hash_algorithms"]
+        else:
+            alt["keyid_hash_algorithms"] = ["sha256", "sha512"]
+        dsc = {"keytype": alt["keytype"], "scheme": alt["scheme"], "keyval": {"public": alt["keyval"]["public"]}}
+        if "keyid_hash_algorithms" in alt:
+            dsc["keyid_hash_algorithms"] = alt["keyid_hash_algorithms"]
+        alt_id = hashlib.sha256(jsongen.olpc_canon(dsc).encode()).hexdigest()
+        chains = []
+        reqs = []
+        for kid, desc in ((W.kid(k), own), (alt_id, alt)):
+            steps = [scen.mk_step("build", 1, [kid], [], [["ALLOW", "*"]], [["ALLOW", "*"]])]
+            reqs.append((scen.mk_layout(W, [], steps, [], keys={kid: desc}, readme="form " + kid[:6]), ["ed0"], "new"))
+            reqs.append((pipeline.leaf_link("build", 0), [k], "new"))
+        wires = scen.sign_all(binpath, reqs, nproc=1)
+        # each layout is signed by a process that holds the owner's key only and has seen no other key before
+        hdr = {"ed0": common.key_header()["ed0"]}
+        for j in (0, 2):
+            o = common.run_batch(binpath, [{"op": "sign", "signed": reqs[j][0], "signers": ["ed0"], "via": "new"}], keys=hdr)[0]
+            if "ok" not in o:
+                raise common.Inconclusive(f"library refused to sign a generated layout: {str(o)[:300]}")
+            wires[j] = o["ok"]["wire"]
+        keys = [[W.kid("ed0"), W.pub("ed0")]]
+        for j, kid in enumerate((W.kid(k), alt_id)):
+            l = copy.deepcopy(wires[2 * j + 1])
+            l["signatures"][0]["keyid"] = kid
+            chains.append(scen.verify_case(wires[2 * j], keys, {f"build.{kid[:8]}.link": scen.dumps(l)}, reps=2,
+                                           meta={"kind": "key_forms_history", "nlinks": 1}))
+        a, b = chains
+        o1 = common.run_batch(binpath, [a, b, copy.deepcopy(a)])
+        # (the second process has not even loaded the executor's own key pool: it meets the key in its other form first)
+        o2 = common.run_batch(binpath, [b, a, copy.deepcopy(b)], keys=False)
+        for case, group, name in ((a, [o1[0], o1[2], o2[1]], "own_form"), (b, [o1[1], o2[0], o2[2]], "other_form")):
+            d = judge_group(case, group, res)
+            if d is not None:
+                kt = k.split("-")[0].rstrip("0123456789")
+                res.note(["key_forms_history", k, name], True,
+                         cls=[f"key_forms_history:{kt}:outcomes:{len(d)}", "key_forms_history:" + ("accept" if any(x[0] == "accept" for x in d) else "reject")], n=6)
+    return res
+
+
 ALIAS_NAMES = [("lib", "lib64"), ("lib64", "lib"), ("a", "b"), ("b", "a"), ("out", "out.d"), ("pkg", "pkg-current"),
                ("zz", "aa"), ("data", "current"), ("current", "data"), ("m", "n"), ("n", "m"), ("x1", "x2"),
                ("target", "latest"), ("v1.0", "stable"), ("stable", "v1.0"), ("Dir", "dir")]
@@ -563,6 +616,7 @@ def short_id_collision(binpath, seed, sh, reps):
 
 def main(ctx):
     res = common.Result()
+    res.merge(key_forms_history(ctx.bin, ctx.seed))
     for p in common.pmap(history, [(ctx.bin, ctx.seed, s) for s in range(4 if not ctx.thorough else common.NPROC)]):
         res.merge(p)
     for p in common.pmap(short_id_collision, [(ctx.bin, ctx.seed, s, 64 if not ctx.thorough else 512) for s in range(2 if not ctx.thorough else 8)]):
@@ -593,7 +647,7 @@ def main(ctx):
              "non-trivial = the surplus links differ; distinct by (layout, directory); evaluations = verifications",
         assumptions=["fresh HashMap instances get fresh SipHash keys (std RandomState), fresh processes fresh base keys"],
         required=["kind:summary_only", "kind:disallow", "kind:match_next", "kind:delegated_surplus", "kind:require",
-                  "kind:multi_party_nested_dissent", "kind:same_key_two_descriptions", "kind:cosigned_by_outsider", "history:delegated:outcomes:1", "history:accept", "history:failing_verifications_in_between",
+                  "kind:multi_party_nested_dissent", "kind:same_key_two_descriptions", "kind:cosigned_by_outsider", "history:delegated:outcomes:1", "history:accept", "key_forms_history:rsa:outcomes:1", "key_forms_history:ed:outcomes:1", "key_forms_history:ec:outcomes:1", "key_forms_history:accept", "history:failing_verifications_in_between",
                   "iteration_order_varied", "accept_seen", "kind:enumeration_order", "kind:sublayout_inspections_share_workdir", "kind:keyid_capitals:layout_signature",
                   "kind:keyid_capitals:key_table_member", "kind:keyid_capitals:control", "enumeration:symlink_listed_first",
                   "enumeration:symlink_listed_second"],
